@@ -89,8 +89,6 @@ def spendSetup (h : HashCtx) (tc : TapCtx) (vcx : VCtx) (cb : CheckerBuilder) (a
               -- configure_tx_txin overwrote amounts[txin_index] when it ran
               (i, if auto then conf.amount else amounts.getD i 0)
             | none => (0, amounts.getD 0 0)
-          -- `amounts[0]` on an empty vector (a transaction without inputs): undefined behaviour
-          if amounts.isEmpty then throw (.abnormal "amounts[0] on empty vector")
           let init : Option (List TxOut × Bool) :=
             match sel with
             | some (txin, _, n) => if tx.vin.length == 1 then (txin.vout[n]?).map (fun o => ([o], conf.hasPreamble)) else none
